@@ -2,6 +2,7 @@ package main
 
 import (
 	"fmt"
+	"os"
 	"strings"
 	"time"
 
@@ -47,11 +48,13 @@ func scenOwnerAfterRolledBackRegistration() []monFailure {
 		if !wrk {
 			key = uint64(c.now.Unix())
 		}
-		r := s.tx(intruder, nundCoins(1030),
+		r := s.tx(intruder, nundCoins(1020),
 			c.mRegRegister(wrk, intruder, "rolledback", "n", "g", "t").m,
 			c.mRegRecord(wrk, intruder, next, key, []string{"h1", "", "", "", ""}).m,
-			c.mRegPurchase(wrk, intruder, next, 1).m,
 			c.mRegRecord(wrk, intruder, next+1000, key, []string{"h2", "", "", "", ""}).m) // unknown id: fails
+		if os.Getenv("VERIF_SCEN_DEBUG") != "" {
+			fmt.Printf("debug: %s bundle next=%d code=%d log=%s\n", mod, next, r.Code, r.Log)
+		}
 		if r.Code == 0 {
 			s.blockEnd()
 			continue // the bundle unexpectedly succeeded: nothing to observe
